@@ -38,6 +38,8 @@ impl<'a> SimdBestFirstVisitor<u32, SimdAabb> for PointVisitor<'a> {
 pub fn exec(func: &str, a: &mut Args) -> String {
     if func.starts_with("composite2_") { return comp2::exec(func, a); }
     if func.starts_with("composite_") { return comp::exec(func, a); }
+    if func.starts_with("lane3_") || func.starts_with("nl3_") { return lanes3::exec(func, a); }
+    if func.starts_with("lane2_") || func.starts_with("nl2_") { return lanes2::exec(func, a); }
     match func {
         "bf_point" => {
             let (q, cur, _) = c08::replay_cur(a, false);
@@ -72,6 +74,8 @@ pub fn gen(r: &mut Rng, thorough: bool) -> Vec<(String, String)> {
     v.extend(comp::gen_nlcast(r, thorough));
     v.extend(comp2::gen_touch(r, thorough));
     v.extend(comp2::gen_nlcast(r, thorough));
+    v.extend(lanes3::gen(r, thorough));
+    v.extend(lanes2::gen(r, thorough));
     v
 }
 
@@ -1038,6 +1042,188 @@ pub mod comp2 {
                 let pt = if r.bool() { tgt } else { tgt + d2::gen_v(r, lat, 4.0) };
                 v.push(("composite2_point".into(), format!("{} {} {}", hc, d2::hp(&(world * pt)), b(r.bool()))));
             }
+        }
+        v
+    }
+}
+
+/// the lane tests of `SimdAabb` used by the composite-shape visitors and `NonlinearRigidMotion`, 3-D (`lane3_*`, `nl3_*`)
+pub mod lanes3 {
+    use crate::util::*;
+    use crate::p3::bounding_volume::{Aabb, SimdAabb};
+    use crate::p3::math::{SimdBool, SimdReal};
+    use crate::p3::query::{NonlinearRigidMotion, Ray, SimdRay};
+    use crate::p3::simba::simd::SimdValue;
+    use d3::{Isometry, Point, Real, Vector, na};
+
+    fn aabb(a: &mut Args) -> Aabb { Aabb::new(d3::p(a), d3::p(a)) }
+    fn haabb(b: &Aabb) -> String { format!("{} {}", d3::hp(&b.mins), d3::hp(&b.maxs)) }
+    fn simd(a: &mut Args) -> SimdAabb { SimdAabb::from([aabb(a), aabb(a), aabb(a), aabb(a)]) }
+    fn fmask(m: SimdBool) -> String { (0..4).map(|i| b(m.extract(i))).collect::<Vec<_>>().join(" ") }
+    fn motion(a: &mut Args) -> NonlinearRigidMotion { NonlinearRigidMotion::new(d3::iso(a), d3::p(a), d3::v(a), d3::v(a)) }
+    fn hmotion(m: &NonlinearRigidMotion) -> String { format!("{} {} {} {}", d3::hiso(&m.start), d3::hp(&m.local_center), d3::hv(&m.linvel), d3::hv(&m.angvel)) }
+    fn fiso(m: &Isometry<Real>) -> String { format!("{} {} {} {} {}", ff(m.rotation.i), ff(m.rotation.j), ff(m.rotation.k), ff(m.rotation.w), d3::fv(&m.translation.vector)) }
+
+    pub fn exec(func: &str, a: &mut Args) -> String {
+        match func {
+            "lane3_intersects" => { let x = simd(a); let y = simd(a); fmask(x.intersects(&y)) }
+            "lane3_point" => { let x = simd(a); let p = d3::p(a); fmask(x.contains_local_point(&Point::splat(p))) }
+            "lane3_dist" => { let x = simd(a); let p = d3::p(a);
+                let d = x.distance_to_local_point(&Point::splat(p)); let o = x.distance_to_origin();
+                (0..4).map(|i| ff(d.extract(i))).chain((0..4).map(|i| ff(o.extract(i)))).collect::<Vec<_>>().join(" ") }
+            "lane3_ray" => { let x = simd(a); let ray = Ray::new(d3::p(a), d3::v(a)); let mt = a.f();
+                let (hit, tmin) = x.cast_local_ray(&SimdRay::splat(ray), SimdReal::splat(mt));
+                (0..4).map(|i| format!("{} {}", b(hit.extract(i)), ff(tmin.extract(i)))).collect::<Vec<_>>().join(" ") }
+            "nl3_set" => { let m = motion(a); let k = a.u(); let tra = d3::v(a); let iso = d3::iso(a);
+                let r = match k { 0 => m.append_translation(tra), 1 => m.prepend_translation(tra), 2 => m.append(iso), _ => m.prepend(iso) };
+                format!("{} {}", fiso(&r.start), d3::fp(&r.local_center)) }
+            "nl3_pos" => { let m = motion(a); let t = a.f(); fiso(&m.position_at_time(t)) }
+            _ => "nofn".into(),
+        }
+    }
+
+    fn gen_box(r: &mut Rng, lat: bool) -> Aabb {
+        let c = d3::gen_p(r, lat, 10.0); let he = d3::gen_he(r, lat) * *r.pick(&[0.25, 1.0]);
+        if r.below(10) == 0 { Aabb::new(c, c) } else { Aabb::new(c - he, c + he) }
+    }
+    /// a box that touches / overlaps / misses `x` by lattice amounts on a chosen side of every axis
+    fn near_box(r: &mut Rng, lat: bool, x: &Aabb) -> Aabb {
+        let mut y = gen_box(r, lat);
+        let he = (y.maxs - y.mins) * 0.5;
+        let mut c = na::center(&x.mins, &x.maxs);
+        for k in 0..3 {
+            let gap = *r.pick(&[0.0, 0.0, 0.0, -0.25, 0.25]);
+            match r.below(4) { 0 => c[k] = x.maxs[k] + he[k] + gap, 1 => c[k] = x.mins[k] - he[k] - gap, _ => c[k] += *r.pick(&[-0.5, 0.0, 0.25]) }
+        }
+        y.mins = c - he; y.maxs = c + he; y
+    }
+    pub fn gen(r: &mut Rng, thorough: bool) -> Vec<(String, String)> {
+        let mut v = Vec::new();
+        let n = if thorough { 2000 } else { 250 };
+        for it in 0..n {
+            let lat = it % 2 == 0;
+            let xs: Vec<Aabb> = (0..4).map(|_| gen_box(r, lat)).collect();
+            let ys: Vec<Aabb> = xs.iter().map(|x| if r.below(4) == 0 { gen_box(r, lat) } else { near_box(r, lat, x) }).collect();
+            let sx = xs.iter().map(haabb).collect::<Vec<_>>().join(" ");
+            let sy = ys.iter().map(haabb).collect::<Vec<_>>().join(" ");
+            // both orders: `self` is the node box for the enumeration / contact visitors, the query box for the intersection-test visitor
+            v.push(("lane3_intersects".into(), format!("{} {}", sx, sy)));
+            v.push(("lane3_intersects".into(), format!("{} {}", sy, sx)));
+            // points on faces / edges / corners of a lane box, or anywhere
+            let x0 = xs[r.below(4) as usize]; let c0 = na::center(&x0.mins, &x0.maxs);
+            let mut p = c0; for k in 0..3 { p[k] = *r.pick(&[x0.mins[k], c0[k], x0.maxs[k], x0.maxs[k] + 0.25, x0.mins[k] - 0.25]); }
+            let p = if r.below(4) == 0 { d3::gen_p(r, lat, 10.0) } else { p };
+            v.push(("lane3_point".into(), format!("{} {}", sx, d3::hp(&p))));
+            v.push(("lane3_dist".into(), format!("{} {}", sx, d3::hp(&p))));
+            // rays: axis-parallel grazing a face, towards a corner, reaching the box exactly at max_toi, zero components, random
+            let k = r.below(3 as u64) as usize; let j = (k + 1) % 3;
+            let (org, dir, mt) = match r.below(5) {
+                0 => { let mut o = c0; o[k] = if r.bool() { x0.maxs[k] } else { x0.mins[k] }; o[j] = x0.mins[j] - 2.0; let mut d = Vector::zeros(); d[j] = *r.pick(&[0.5, 1.0, 2.0]); (o, d, *r.pick(&[1.0, 2.0, 4.0, 1.0e3])) }
+                1 => { let mut o = c0; o[k] = x0.maxs[k] + 2.0; let mut d = Vector::zeros(); d[k] = *r.pick(&[-1.0, -2.0, 1.0]); (o, d, *r.pick(&[1.0, 2.0, 4.0])) }
+                2 => { let tgt = Point::from(x0.maxs.coords); let o = tgt + Vector::repeat(2.0); (o, (tgt - o) * *r.pick(&[0.5, 1.0]), *r.pick(&[1.0, 2.0, 1.0e3])) }
+                3 => { let o = c0; (o, d3::gen_v(r, lat, 1.0), *r.pick(&[0.0, 1.0])) }
+                _ => { let o = d3::gen_p(r, lat, 10.0); let tgt = c0 + d3::gen_v(r, lat, 1.0); let mut d = tgt - o; if r.below(3) == 0 { d[k] = 0.0; } (o, d, *r.pick(&[0.5, 1.0, 1.0e3])) }
+            };
+            v.push(("lane3_ray".into(), format!("{} {} {} {}", sx, d3::hp(&org), d3::hv(&dir), hx(mt))));
+            // motions
+            let m = NonlinearRigidMotion::new(d3::gen_iso(r, lat, 10.0), if r.below(3) == 0 { Point::origin() } else { d3::gen_p(r, lat, 4.0) }, d3::gen_v(r, lat, 2.0), if r.bool() { Vector::zeros() } else { d3::gen_v(r, lat, 1.0) });
+            let tra = d3::gen_v(r, lat, 4.0); let iso = d3::gen_iso(r, lat, 4.0);
+            v.push(("nl3_set".into(), format!("{} {} {} {}", hmotion(&m), r.below(4), d3::hv(&tra), d3::hiso(&iso))));
+            let t = *r.pick(&[0.0, 0.5, 1.0, 3.0]);
+            // the rotation part of `Isometry::new(linvel * t, angvel * t)` (the exponential map is not modelled) travels with the case
+            let mm = Isometry::new(m.linvel * t, m.angvel * t);
+            v.push(("nl3_pos".into(), format!("{} {} {}", hmotion(&m), hx(t), format!("{} {} {} {}", hx(mm.rotation.i), hx(mm.rotation.j), hx(mm.rotation.k), hx(mm.rotation.w)))));
+        }
+        v
+    }
+}
+
+/// the lane tests of `SimdAabb` used by the composite-shape visitors and `NonlinearRigidMotion`, 2-D (`lane2_*`, `nl2_*`)
+pub mod lanes2 {
+    use crate::util::*;
+    use crate::p2::bounding_volume::{Aabb, SimdAabb};
+    use crate::p2::math::{SimdBool, SimdReal};
+    use crate::p2::query::{NonlinearRigidMotion, Ray, SimdRay};
+    use crate::p2::simba::simd::SimdValue;
+    use d2::{Isometry, Point, Real, Vector, na};
+
+    fn aabb(a: &mut Args) -> Aabb { Aabb::new(d2::p(a), d2::p(a)) }
+    fn haabb(b: &Aabb) -> String { format!("{} {}", d2::hp(&b.mins), d2::hp(&b.maxs)) }
+    fn simd(a: &mut Args) -> SimdAabb { SimdAabb::from([aabb(a), aabb(a), aabb(a), aabb(a)]) }
+    fn fmask(m: SimdBool) -> String { (0..4).map(|i| b(m.extract(i))).collect::<Vec<_>>().join(" ") }
+    fn motion(a: &mut Args) -> NonlinearRigidMotion { NonlinearRigidMotion::new(d2::iso(a), d2::p(a), d2::v(a), a.f()) }
+    fn hmotion(m: &NonlinearRigidMotion) -> String { format!("{} {} {} {}", d2::hiso(&m.start), d2::hp(&m.local_center), d2::hv(&m.linvel), hx(m.angvel)) }
+    fn fiso(m: &Isometry<Real>) -> String { format!("{} {} {}", ff(m.rotation.re), ff(m.rotation.im), d2::fv(&m.translation.vector)) }
+
+    pub fn exec(func: &str, a: &mut Args) -> String {
+        match func {
+            "lane2_intersects" => { let x = simd(a); let y = simd(a); fmask(x.intersects(&y)) }
+            "lane2_point" => { let x = simd(a); let p = d2::p(a); fmask(x.contains_local_point(&Point::splat(p))) }
+            "lane2_dist" => { let x = simd(a); let p = d2::p(a);
+                let d = x.distance_to_local_point(&Point::splat(p)); let o = x.distance_to_origin();
+                (0..4).map(|i| ff(d.extract(i))).chain((0..4).map(|i| ff(o.extract(i)))).collect::<Vec<_>>().join(" ") }
+            "lane2_ray" => { let x = simd(a); let ray = Ray::new(d2::p(a), d2::v(a)); let mt = a.f();
+                let (hit, tmin) = x.cast_local_ray(&SimdRay::splat(ray), SimdReal::splat(mt));
+                (0..4).map(|i| format!("{} {}", b(hit.extract(i)), ff(tmin.extract(i)))).collect::<Vec<_>>().join(" ") }
+            "nl2_set" => { let m = motion(a); let k = a.u(); let tra = d2::v(a); let iso = d2::iso(a);
+                let r = match k { 0 => m.append_translation(tra), 1 => m.prepend_translation(tra), 2 => m.append(iso), _ => m.prepend(iso) };
+                format!("{} {}", fiso(&r.start), d2::fp(&r.local_center)) }
+            "nl2_pos" => { let m = motion(a); let t = a.f(); fiso(&m.position_at_time(t)) }
+            _ => "nofn".into(),
+        }
+    }
+
+    fn gen_box(r: &mut Rng, lat: bool) -> Aabb {
+        let c = d2::gen_p(r, lat, 10.0); let he = d2::gen_he(r, lat) * *r.pick(&[0.25, 1.0]);
+        if r.below(10) == 0 { Aabb::new(c, c) } else { Aabb::new(c - he, c + he) }
+    }
+    /// a box that touches / overlaps / misses `x` by lattice amounts on a chosen side of every axis
+    fn near_box(r: &mut Rng, lat: bool, x: &Aabb) -> Aabb {
+        let mut y = gen_box(r, lat);
+        let he = (y.maxs - y.mins) * 0.5;
+        let mut c = na::center(&x.mins, &x.maxs);
+        for k in 0..2 {
+            let gap = *r.pick(&[0.0, 0.0, 0.0, -0.25, 0.25]);
+            match r.below(4) { 0 => c[k] = x.maxs[k] + he[k] + gap, 1 => c[k] = x.mins[k] - he[k] - gap, _ => c[k] += *r.pick(&[-0.5, 0.0, 0.25]) }
+        }
+        y.mins = c - he; y.maxs = c + he; y
+    }
+    pub fn gen(r: &mut Rng, thorough: bool) -> Vec<(String, String)> {
+        let mut v = Vec::new();
+        let n = if thorough { 2000 } else { 250 };
+        for it in 0..n {
+            let lat = it % 2 == 0;
+            let xs: Vec<Aabb> = (0..4).map(|_| gen_box(r, lat)).collect();
+            let ys: Vec<Aabb> = xs.iter().map(|x| if r.below(4) == 0 { gen_box(r, lat) } else { near_box(r, lat, x) }).collect();
+            let sx = xs.iter().map(haabb).collect::<Vec<_>>().join(" ");
+            let sy = ys.iter().map(haabb).collect::<Vec<_>>().join(" ");
+            // both orders: `self` is the node box for the enumeration / contact visitors, the query box for the intersection-test visitor
+            v.push(("lane2_intersects".into(), format!("{} {}", sx, sy)));
+            v.push(("lane2_intersects".into(), format!("{} {}", sy, sx)));
+            // points on faces / edges / corners of a lane box, or anywhere
+            let x0 = xs[r.below(4) as usize]; let c0 = na::center(&x0.mins, &x0.maxs);
+            let mut p = c0; for k in 0..2 { p[k] = *r.pick(&[x0.mins[k], c0[k], x0.maxs[k], x0.maxs[k] + 0.25, x0.mins[k] - 0.25]); }
+            let p = if r.below(4) == 0 { d2::gen_p(r, lat, 10.0) } else { p };
+            v.push(("lane2_point".into(), format!("{} {}", sx, d2::hp(&p))));
+            v.push(("lane2_dist".into(), format!("{} {}", sx, d2::hp(&p))));
+            // rays: axis-parallel grazing a face, towards a corner, reaching the box exactly at max_toi, zero components, random
+            let k = r.below(2 as u64) as usize; let j = (k + 1) % 2;
+            let (org, dir, mt) = match r.below(5) {
+                0 => { let mut o = c0; o[k] = if r.bool() { x0.maxs[k] } else { x0.mins[k] }; o[j] = x0.mins[j] - 2.0; let mut d = Vector::zeros(); d[j] = *r.pick(&[0.5, 1.0, 2.0]); (o, d, *r.pick(&[1.0, 2.0, 4.0, 1.0e3])) }
+                1 => { let mut o = c0; o[k] = x0.maxs[k] + 2.0; let mut d = Vector::zeros(); d[k] = *r.pick(&[-1.0, -2.0, 1.0]); (o, d, *r.pick(&[1.0, 2.0, 4.0])) }
+                2 => { let tgt = Point::from(x0.maxs.coords); let o = tgt + Vector::repeat(2.0); (o, (tgt - o) * *r.pick(&[0.5, 1.0]), *r.pick(&[1.0, 2.0, 1.0e3])) }
+                3 => { let o = c0; (o, d2::gen_v(r, lat, 1.0), *r.pick(&[0.0, 1.0])) }
+                _ => { let o = d2::gen_p(r, lat, 10.0); let tgt = c0 + d2::gen_v(r, lat, 1.0); let mut d = tgt - o; if r.below(3) == 0 { d[k] = 0.0; } (o, d, *r.pick(&[0.5, 1.0, 1.0e3])) }
+            };
+            v.push(("lane2_ray".into(), format!("{} {} {} {}", sx, d2::hp(&org), d2::hv(&dir), hx(mt))));
+            // motions
+            let m = NonlinearRigidMotion::new(d2::gen_iso(r, lat, 10.0), if r.below(3) == 0 { Point::origin() } else { d2::gen_p(r, lat, 4.0) }, d2::gen_v(r, lat, 2.0), if r.bool() { 0.0 } else { r.coord(lat, 1.0) });
+            let tra = d2::gen_v(r, lat, 4.0); let iso = d2::gen_iso(r, lat, 4.0);
+            v.push(("nl2_set".into(), format!("{} {} {} {}", hmotion(&m), r.below(4), d2::hv(&tra), d2::hiso(&iso))));
+            let t = *r.pick(&[0.0, 0.5, 1.0, 3.0]);
+            // the rotation part of `Isometry::new(linvel * t, angvel * t)` (the exponential map is not modelled) travels with the case
+            let mm = Isometry::new(m.linvel * t, m.angvel * t);
+            v.push(("nl2_pos".into(), format!("{} {} {}", hmotion(&m), hx(t), format!("{} {}", hx(mm.rotation.re), hx(mm.rotation.im)))));
         }
         v
     }
